@@ -18,7 +18,7 @@ PROP = dict(
         quick=dict(cases=120, shards=6, profiles=["debug", "release"]),
         thorough=dict(cases=2400, shards=16, profiles=["debug", "release"]),
     )],
-    rule="one case = one real vector (BytesVec<u64>, BytesVec<5-byte non-native element>, ZeroCopyVec<u64>, PcoVec/LZ4Vec/"
+    rule="[cases 11-14 of every run are directed: a rollback leaves a slot both deleted and in the overlay, later slots updated (11-12) / the same state behind the region end after a second rollback of a truncating commit (13-14), then the fallible and infallible folds] one case = one real vector (BytesVec<u64>, BytesVec<5-byte non-native element>, ZeroCopyVec<u64>, PcoVec/LZ4Vec/"
          "ZstdVec<u64>, EagerVec<BytesVec>, EagerVec<PcoVec>; 35% with rollback support) driven through 1-3 phases of a short "
          "history (push, flush / stamped flush, truncate, update, delete, fill hole, rollback; sizes 0-40 (62%), around "
          "2048/3276/4096/6144/8192 elements = page and cursor-chunk boundaries (30%), more than one 512 KiB IO buffer (4%, raw)); "
